@@ -1040,8 +1040,17 @@ pub fn destroy_race_scenario(g: &GenCfg) -> BoxedStrategy<Scenario> {
                         // the probe either starts late, or straddles the publication of the
                         // conditional action: it has read the account, pauses before its first
                         // storage read and resumes after the action's attempt has been published
-                        let at = if gaps[3] == 2 && gaps[2] != 0 { pt::DB_STORAGE } else { pt::EXEC_START };
-                        s.holds.push(Hold { role: role::WORKER, nth_thread: 255, at, arg: Some(role_pos[2] as u16), nth: 0, until: Until::EventOrSteps(2, 1 + gaps[3] % 2, 2000) });
+                        let straddle = gaps[3] == 2 && gaps[2] != 0;
+                        let at = if straddle { pt::DB_STORAGE } else { pt::EXEC_START };
+                        // the straddling probe waits for the end of an attempt of the conditional action itself
+                        let kind = if straddle { crate::dsched::per_tx_kind(2, role_pos[1]) } else { 2 };
+                        s.holds.push(Hold { role: role::WORKER, nth_thread: 255, at, arg: Some(role_pos[2] as u16), nth: 0, until: Until::EventOrSteps(kind, if straddle { 0 } else { 1 + gaps[3] % 2 }, 2000) });
+                        if straddle && gaps[0] != 0 {
+                            // ... and finishes its attempt only after the conditional action has been
+                            // invalidated and re-executed (so the probe is validated against the final
+                            // incarnation although it read the withdrawn one)
+                            s.holds.push(Hold { role: role::WORKER, nth_thread: 255, at: pt::EXEC_DONE, arg: Some(role_pos[2] as u16), nth: 0, until: Until::EventOrSteps(crate::dsched::per_tx_kind(2, role_pos[1]), 0, 3000) });
+                        }
                     }
                     sc.grevm.concurrency = sc.grevm.concurrency.max(3);
                 }
